@@ -563,7 +563,15 @@ func ExecParse(op M) (res any) {
 		if d1 == nil {
 			return M{"class": c1}
 		}
-		whole := func(d *sbom.Document) string { return uuidRe.ReplaceAllString(js(DocJ(d)), "<uuid>") }
+		// the whole document, nodes / edges / roots in canonical order (the parsers' output order
+		// follows Go map iteration in places and is not part of the comparison)
+		whole := func(d *sbom.Document) string {
+			j := DocJ(d)
+			if m, ok := j.(M); ok {
+				m["nl"] = CanonResult(m["nl"])
+			}
+			return uuidRe.ReplaceAllString(js(j), "<uuid>")
+		}
 		before := whole(d1)
 		if len(d1.NodeList.Nodes) > 0 {
 			first := d1.NodeList.Nodes[0]
@@ -823,7 +831,12 @@ func parseCanon(v any) any {
 // parseBatch runs the operations in child processes, 400 at a time: an input that terminates the
 // process (fatal stack overflow, os.Exit) costs one child, not the check. When a child dies, its
 // operations are re-run one per child to find the one that kills it.
-func parseBatch(ops []M) []any {
+func parseBatch(ops []M) []any { return childBatch("parse", ops) }
+
+// childBatch runs the operations of a stream in child processes, a few hundred at a time; when a
+// child ends abnormally (a fatal error of the runtime cannot be recovered from) its operations are
+// run again one per process, so that the one that ends the process is known
+func childBatch(stream string, ops []M) []any {
 	out := make([]any, len(ops))
 	const chunk = 400
 	type job struct{ lo, hi int }
@@ -836,7 +849,7 @@ func parseBatch(ops []M) []any {
 		jobs = append(jobs, job{lo, hi})
 	}
 	run := func(lo, hi int) ([]any, string) {
-		req := M{"op": "batch", "stream": "parse", "ops": toAnyList(ops[lo:hi])}
+		req := M{"op": "batch", "stream": stream, "ops": toAnyList(ops[lo:hi])}
 		r, exit := runChild(req)
 		l, _ := r.([]any)
 		return l, exit
